@@ -116,4 +116,4 @@ def run(chk, replay=None):
         "hard-linked and symlinked entries, deletions from the workspace, then remove --from-cache {current, --all-versions, --only-version <unique / ambiguous / empty prefix>} [--force] and untrack with targets {file, dir/, glob}, "
         "followed by deleting and rechecking one of the other tracked paths; referrers of every deleted object are recomputed from the content-digest event log. "
         "non-trivial = a remove / untrack one of whose target addresses has a referrer outside the targets, or an untrack of a link into the cache; distinct by the whole history",
-        n_quick=200, n_thorough=1500, theorem_names=THEOREMS)
+        n_quick=120, n_thorough=1500, theorem_names=THEOREMS)
